@@ -80,11 +80,21 @@ func GenModule(t *rapid.T, noFail bool) Module {
 		switch vk.Uniform(t, 17) {
 		case 0, 1:
 			v := fresh("v")
-			line("%s = [%s, %s]", v, val(), val())
+			if vk.Chance(t, 0.12) {
+				line("%s = []", v)
+			} else {
+				line("%s = [%s, %s]", v, val(), val())
+			}
 			vars = append(vars, ModVar{v, "list"})
 		case 2:
 			v := fresh("v")
-			line("%s = {%s: %s, \"z\": %s}", v, hashable(), val(), val())
+			switch vk.Uniform(t, 6) {
+			case 0:
+				// never populated: the hash table is allocated lazily
+				line("%s = %s", v, []string{"{}", "dict()", "{k_: 1 for k_ in []}"}[vk.Uniform(t, 3)])
+			default:
+				line("%s = {%s: %s, \"z\": %s}", v, hashable(), val(), val())
+			}
 			vars = append(vars, ModVar{v, "dict"})
 		case 3:
 			v := fresh("v")
@@ -93,7 +103,11 @@ func GenModule(t *rapid.T, noFail bool) Module {
 		case 4:
 			if c.Set {
 				v := fresh("v")
-				line("%s = set([%s, 5, \"e\"])", v, hashable())
+				if vk.Chance(t, 0.2) {
+					line("%s = %s", v, []string{"set()", "set([])", "set([1]) & set([2])"}[vk.Uniform(t, 3)])
+				} else {
+					line("%s = set([%s, 5, \"e\"])", v, hashable())
+				}
 				vars = append(vars, ModVar{v, "set"})
 			}
 		case 5:
